@@ -486,3 +486,238 @@ Proof.
   intros sch enums acts pol st p a r ctx Hwf Hg Haw Hsd Had He Hks Hv Hn.
   apply validated_and_conforming_never_type_errors; auto using store_vals_wf_ok, wf_value_vnodup.
 Qed.
+
+(* ------------------------------------------------------------------ *)
+(* Part 5: a concrete schema, store and request                         *)
+(* ------------------------------------------------------------------ *)
+(* entity User in [Team] { age: Long, friends?: Set<User> } tags String;  entity Team;  entity Color enum ["red", "green"];
+   action "all"; action "readers" in ["all"]; action "view" in ["readers"] appliesTo { principal: User, resource: [User, Team],
+   context: { ip: ipaddr, note?: String } } *)
+Definition xUser := s_of "User".
+Definition xTeam := s_of "Team".
+Definition xColor := s_of "Color".
+Definition xAction := s_of "Action".
+Definition a_view : uid := (xAction, s_of "view").
+Definition a_readers : uid := (xAction, s_of "readers").
+Definition a_all : uid := (xAction, s_of "all").
+Definition ex_user : tentity :=
+  {| te_parents := [xTeam];
+     te_shape := [(s_of "age", (CLong, true)); (s_of "friends", (CSet (CEnt [xUser]), false))];
+     te_tags := Some CString |}.
+Definition ex_team : tentity := {| te_parents := []; te_shape := []; te_tags := None |}.
+Definition ex_sch : tschema :=
+  {| ts_entities := [(xUser, ex_user); (xTeam, ex_team)];
+     ts_enums := [xColor];
+     ts_actions := [a_view; a_readers; a_all];
+     ts_agraph := [(a_view, [a_readers]); (a_readers, [a_all]); (a_all, [])] |}.
+Definition ex_enums : list (str * list str) := [(xColor, [s_of "red"; s_of "green"])].
+Definition ex_ctx : list (str * (cty * bool)) := [(s_of "ip", (xt "ipaddr", true)); (s_of "note", (CString, false))].
+Definition ex_acts : list (uid * applies) :=
+  [(a_view, Some ([xUser], [xUser; xTeam], ex_ctx)); (a_readers, None); (a_all, None)].
+
+Definition u_alice : uid := (xUser, s_of "alice").
+Definition u_bob : uid := (xUser, s_of "bob").
+Definition u_t1 : uid := (xTeam, s_of "t1").
+Definition u_red : uid := (xColor, s_of "red").
+Definition bare : entity := {| e_parents := []; e_attrs := []; e_tags := [] |}.
+Definition e_alice : entity :=
+  {| e_parents := [u_t1];
+     e_attrs := [(s_of "age", VLong 30); (s_of "friends", VSet [VEntity xUser (s_of "bob")])];
+     e_tags := [(s_of "k", VString (s_of "v"))] |}.
+Definition e_bob : entity := {| e_parents := []; e_attrs := [(s_of "age", VLong 5)]; e_tags := [] |}.
+Definition ex_store : store :=
+  [(u_alice, e_alice); (u_bob, e_bob); (u_t1, bare); (u_red, bare);
+   (a_view, {| e_parents := [a_readers; a_all]; e_attrs := []; e_tags := [] |});
+   (a_readers, {| e_parents := [a_all]; e_attrs := []; e_tags := [] |});
+   (a_all, bare)].
+Definition ex_reqctx : list (str * value) := [(s_of "ip", VIP false 2130706433 32)].
+
+Definition ex_pol : policy :=
+  {| p_effect := true; p_principal := SIs xUser; p_action := SEq a_view; p_resource := SAll;
+     p_conds := [(true, EAnd (EGt (EAccess (EVar VPrincipal) (s_of "age")) (ELit (VLong 3)))
+                             (EIn (EVar VAction) (ELit (VEntity xAction (s_of "all")))))] |}.
+
+Example ex_entities_conform : check_entities ex_sch ex_enums ex_store = true.
+Proof. vm_compute. reflexivity. Qed.
+Example ex_request_conforms : check_request ex_sch ex_acts u_alice a_view u_t1 ex_reqctx = true.
+Proof. vm_compute. reflexivity. Qed.
+Example ex_closure : action_closure ex_sch a_view = [a_all; a_readers].
+Proof. vm_compute. reflexivity. Qed.
+Example ex_policy_validates : validate_policy true ex_sch ex_acts ex_pol = true.
+Proof. vm_compute. reflexivity. Qed.
+
+(* non-conforming variants: each is rejected *)
+Definition with_entity (u : uid) (e : entity) : store := (u, e) :: ex_store.
+(* an attribute the type does not declare *)
+Example ex_bad_undeclared_attr :
+  check_entity ex_sch ex_enums (u_bob, {| e_parents := []; e_attrs := [(s_of "age", VLong 5); (s_of "zzz", VBool true)]; e_tags := [] |}) = false.
+Proof. vm_compute. reflexivity. Qed.
+(* a required attribute is missing *)
+Example ex_bad_missing_required :
+  check_entity ex_sch ex_enums (u_bob, {| e_parents := []; e_attrs := []; e_tags := [] |}) = false.
+Proof. vm_compute. reflexivity. Qed.
+(* an attribute of the wrong type *)
+Example ex_bad_attr_type :
+  check_entity ex_sch ex_enums (u_bob, {| e_parents := []; e_attrs := [(s_of "age", VString (s_of "5"))]; e_tags := [] |}) = false.
+Proof. vm_compute. reflexivity. Qed.
+(* an action entity with a parent outside the closure of its declared groups *)
+Example ex_bad_action_parent :
+  check_entity ex_sch ex_enums (a_readers, {| e_parents := [a_all; a_view]; e_attrs := []; e_tags := [] |}) = false.
+Proof. vm_compute. reflexivity. Qed.
+(* an action entity that lacks a member of the closure (the code demands equality; the theorems only use the inclusion) *)
+Example ex_bad_action_parent_missing :
+  check_entity ex_sch ex_enums (a_view, {| e_parents := [a_readers]; e_attrs := []; e_tags := [] |}) = false.
+Proof. vm_compute. reflexivity. Qed.
+(* an undeclared action *)
+Example ex_bad_action_undeclared :
+  check_entity ex_sch ex_enums ((xAction, s_of "delete"), bare) = false.
+Proof. vm_compute. reflexivity. Qed.
+(* an enumerated entity with an id the enumeration does not list *)
+Example ex_bad_enum_id : check_entity ex_sch ex_enums ((xColor, s_of "blue"), bare) = false.
+Proof. vm_compute. reflexivity. Qed.
+(* a tag on an entity whose type declares no tags *)
+Example ex_bad_tag : check_entity ex_sch ex_enums (u_t1, {| e_parents := []; e_attrs := []; e_tags := [(s_of "k", VString [])] |}) = false.
+Proof. vm_compute. reflexivity. Qed.
+(* a parent of a type that is not a declared parent type *)
+Example ex_bad_parent_type : check_entity ex_sch ex_enums (u_t1, {| e_parents := [u_bob]; e_attrs := []; e_tags := [] |}) = false.
+Proof. vm_compute. reflexivity. Qed.
+(* an entity of an unknown type *)
+Example ex_bad_unknown_type : check_entity ex_sch ex_enums ((s_of "Robot", s_of "r2"), bare) = false.
+Proof. vm_compute. reflexivity. Qed.
+(* one bad entity makes the store non-conforming *)
+Example ex_bad_store : check_entities ex_sch ex_enums (with_entity (xColor, s_of "blue") bare) = false.
+Proof. vm_compute. reflexivity. Qed.
+(* requests: principal type outside appliesTo; missing required context attribute; undeclared context attribute; action that applies to
+   nothing; undeclared action *)
+Example ex_bad_request_principal : check_request ex_sch ex_acts u_t1 a_view u_t1 ex_reqctx = false.
+Proof. vm_compute. reflexivity. Qed.
+Example ex_bad_request_ctx_missing : check_request ex_sch ex_acts u_alice a_view u_t1 [] = false.
+Proof. vm_compute. reflexivity. Qed.
+Example ex_bad_request_ctx_extra :
+  check_request ex_sch ex_acts u_alice a_view u_t1 [(s_of "ip", VIP false 2130706433 32); (s_of "zzz", VLong 0)] = false.
+Proof. vm_compute. reflexivity. Qed.
+Example ex_bad_request_group : check_request ex_sch ex_acts u_alice a_readers u_t1 ex_reqctx = false.
+Proof. vm_compute. reflexivity. Qed.
+Example ex_bad_request_action : check_request ex_sch ex_acts u_alice (xAction, s_of "delete") u_t1 ex_reqctx = false.
+Proof. vm_compute. reflexivity. Qed.
+
+(* store_vals_ok cannot be dropped from check_entity_sound: an attribute list with a repeated key *)
+Example check_entity_sound_needs_vals_ok :
+  let e := {| e_parents := []; e_attrs := [(s_of "age", VLong 5); (s_of "age", VString [])]; e_tags := [] |} in
+  check_entity ex_sch ex_enums (u_bob, e) = true /\ ~ entity_ok ex_sch u_bob e.
+Proof.
+  cbv zeta. split; [vm_compute; reflexivity|]. intros H. unfold entity_ok in H.
+  assert (E : alookup (fst u_bob) (ts_entities ex_sch) = Some ex_user) by (vm_compute; reflexivity).
+  rewrite E in H. destruct H as [H _]. cbn [e_attrs] in H. apply vtyped_rec_inv in H. destruct H as [H _].
+  inversion H as [|? ? _ H2]; subst. inversion H2 as [|? ? H3 _]; subst.
+  destruct H3 as (t & q & El & Ht). assert (Et : t = CLong) by (vm_compute in El; inversion El; reflexivity).
+  subst t. inversion Ht.
+Qed.
+
+(* the hypotheses of the end-to-end theorem hold of the example schema *)
+Ltac nodup_str :=
+  repeat (constructor; [cbn [In]; let HH := fresh "HH" in intros HH; repeat (destruct HH as [HH|HH]; [vm_compute in HH; discriminate HH|]); exact HH|]);
+  constructor.
+
+Lemma ex_schema_decl : schema_decl ex_sch.
+Proof.
+  intros n te H. unfold entity_of, ex_sch in H. cbn [ts_entities alookup] in H.
+  destruct (str_eqb xUser n).
+  { inversion H; subst. split; [vm_compute; reflexivity|]. intros tt E. inversion E; subst. reflexivity. }
+  destruct (str_eqb xTeam n); [|discriminate H].
+  inversion H; subst. split; [vm_compute; reflexivity|]. intros tt E. discriminate E.
+Qed.
+
+Lemma ex_schema_wf : schema_wf ex_sch.
+Proof.
+  split; [vm_compute; reflexivity|].
+  intros n te H. unfold entity_of, ex_sch in H. cbn [ts_entities alookup] in H.
+  destruct (str_eqb xUser n).
+  { inversion H; subst. split.
+    - intros k t q E. unfold ex_user in E. cbn [te_shape alookup] in E.
+      destruct (str_eqb (s_of "age") k); [inversion E; subst; exact I|].
+      destruct (str_eqb (s_of "friends") k); [inversion E; subst; exact I | discriminate E].
+    - intros tt E. inversion E; subst. exact I. }
+  destruct (str_eqb xTeam n); [|discriminate H].
+  inversion H; subst. split; [intros k t q E; discriminate E | intros tt E; discriminate E].
+Qed.
+
+Lemma ex_agraph_wf : agraph_wf ex_sch.
+Proof.
+  split; [|split; [|split]].
+  - intros u. exact (iff_refl _).
+  - intros a ps Hin. unfold ex_sch in Hin. cbn [ts_agraph In] in Hin.
+    destruct Hin as [E|[E|[E|[]]]]; inversion E; subst; (split; [vm_compute; reflexivity|]); intros p Hp.
+    + destruct Hp as [<-|[]]. apply umem_In. vm_compute. reflexivity.
+    + destruct Hp as [<-|[]]. apply umem_In. vm_compute. reflexivity.
+    + destruct Hp.
+  - intros n Hn. unfold entity_of, ex_sch. cbn [ts_entities ts_enums alookup smem existsb].
+    destruct (str_eqb xUser n) eqn:E1; [apply str_eqb_eq in E1; subst n; vm_compute in Hn; discriminate Hn|].
+    destruct (str_eqb xTeam n) eqn:E2; [apply str_eqb_eq in E2; subst n; vm_compute in Hn; discriminate Hn|].
+    split; [reflexivity|].
+    destruct (str_eqb n xColor) eqn:E3; [apply str_eqb_eq in E3; subst n; vm_compute in Hn; discriminate Hn | reflexivity].
+  - intros n te p H Hp. unfold entity_of, ex_sch in H. cbn [ts_entities alookup] in H.
+    destruct (str_eqb xUser n).
+    { inversion H; subst. destruct Hp as [<-|[]]. vm_compute. reflexivity. }
+    destruct (str_eqb xTeam n); [|discriminate H]. inversion H; subst. destruct Hp.
+Qed.
+
+Lemma ex_acts_wf : acts_wf ex_sch ex_acts.
+Proof.
+  split.
+  - intros u. exact (iff_refl _).
+  - intros u ps rs c Hin. unfold ex_acts in Hin. cbn [In] in Hin.
+    destruct Hin as [E|[E|[E|[]]]]; inversion E; subst.
+    apply WT_rec. split; [unfold ex_ctx; cbn [map fst]; nodup_str | repeat constructor].
+Qed.
+
+Lemma ex_acts_decl : acts_decl ex_acts.
+Proof.
+  intros u ps rs c Hin. unfold ex_acts in Hin. cbn [In] in Hin.
+  destruct Hin as [E|[E|[E|[]]]]; inversion E; subst. vm_compute. reflexivity.
+Qed.
+
+Lemma ex_enums_ok : enums_ok ex_sch ex_enums.
+Proof.
+  intros n H. unfold ex_enums in H. cbn [alookup] in H.
+  destruct (str_eqb xColor n) eqn:E; [|congruence]. apply str_eqb_eq in E. subst n. vm_compute. reflexivity.
+Qed.
+
+Lemma ex_store_vals_wf : store_vals_wf ex_store.
+Proof.
+  unfold store_vals_wf, entity_vals_wf, ex_store.
+  repeat (constructor; [split; [vm_compute; reflexivity | repeat constructor]|]). constructor.
+Qed.
+
+(* the end-to-end theorem, instantiated: no evaluation is performed to obtain it *)
+Example ex_never_type_errors :
+  match eval (req_env ex_store u_alice a_view u_t1 ex_reqctx) (policy_to_expr ex_pol) with
+  | Ok v => exists b, v = VBool b
+  | Err k => allowed_error k = true
+  end.
+Proof.
+  apply (validated_and_conforming_never_type_errors_wf ex_sch ex_enums ex_acts ex_pol ex_store u_alice a_view u_t1 ex_reqctx
+           ex_schema_wf ex_agraph_wf ex_acts_wf ex_schema_decl ex_acts_decl ex_enums_ok).
+  - vm_compute. reflexivity.
+  - exact ex_store_vals_wf.
+  - vm_compute. reflexivity.
+  - exact ex_policy_validates.
+  - exact ex_entities_conform.
+  - exact ex_request_conforms.
+Qed.
+(* and what the evaluator actually returns *)
+Example ex_eval : eval (req_env ex_store u_alice a_view u_t1 ex_reqctx) (policy_to_expr ex_pol) = Ok (VBool true).
+Proof. vm_compute. reflexivity. Qed.
+
+Print Assumptions check_value_sound.
+Print Assumptions check_value_complete.
+Print Assumptions check_value_sound_needs_nodup.
+Print Assumptions check_value_complete_needs_WT.
+Print Assumptions check_entity_sound.
+Print Assumptions check_entities_sound.
+Print Assumptions check_request_sound.
+Print Assumptions checks_env_ok.
+Print Assumptions validated_and_conforming_never_type_errors.
+Print Assumptions validated_and_conforming_never_type_errors_wf.
+Print Assumptions check_entity_sound_needs_vals_ok.
+Print Assumptions ex_never_type_errors.
